@@ -134,6 +134,10 @@ def apply_mask(
   elif types.is_array_like(masks) and types.is_array_like(items):
     if hasattr(masks, '__array__') and getattr(masks, 'dtype') == bool:
       if replace_false_with != DEFAULT_FILTER:
+        items = np.asarray(items)
+        # A mask of rows applies to whole rows, not along the last axis.
+        extra_dims = max(items.ndim - masks.ndim, 0)
+        masks = np.reshape(masks, masks.shape + (1,) * extra_dims)
         return np.where(masks, items, replace_false_with)
       else:
         return np.asarray(items)[masks]
